@@ -150,7 +150,7 @@ def enginesStepS (psBefore psAfter : PState) (ss : SState) (i : Nat) (toks : Lis
   | ["fma", a, x, y] =>
     match sObj psBefore ss0 a, sObj psBefore ss0 y with
     | some (_, ao), some (yid, yo) =>
-      let undef := fin (ss0.setObj yid none) none
+      let undef := fin (ss0.kill yid) none
       if ao.idx.shape != yo.idx.shape || ao.idx.shape.isEmpty then undef else
       let dt := match psBefore.obj a with | some (_, d) => d.dt | none => "?"
       let xs : Option (List Val) :=
@@ -167,7 +167,7 @@ def enginesStepS (psBefore psAfter : PState) (ss : SState) (i : Nat) (toks : Lis
         if yo.isView && mres != "ok" then fin ss0 (some "r=ok|err") else
         fin { ss0 with store := ss0.store.set! yo.root b' } (some s!"r={if yo.isView then "ok|err" else "ok"} ident={psBefore.firstVar yid}")
       | _, _, _, _ => undef
-    | _, some (yid, _) => fin (ss0.setObj yid none) none
+    | _, some (yid, _) => fin (ss0.kill yid) none
     | _, _ => fin ss0 none
   | _ => fin ss0 none
 
